@@ -6,6 +6,8 @@ package main
 import (
 	"flag"
 	"fmt"
+	"os"
+	"strings"
 	"math/rand"
 	"sort"
 	"strconv"
@@ -42,7 +44,11 @@ func (r *reapCtl) ReconnectTimeout(m *serf.Member, timeout time.Duration) time.D
 	return timeout
 }
 
+var pipeline bool   // C16 mode: coalescers + snapshot on, observe emitted (log) vs received (EventCh)
+var scratchDir string
+
 type run struct {
+	logPos int
 	n     *quiet.Node
 	net   *quiet.Net
 	names []string // id -> concrete name (0 = self)
@@ -72,6 +78,13 @@ func newRun(nn int, rng *rand.Rand) *run {
 		c.ReapInterval = 3 * time.Millisecond
 		c.ReconnectTimeoutOverride = r.reap
 		c.ValidateNodeNames = false
+		if pipeline {
+			c.CoalescePeriod = 40 * time.Millisecond
+			c.QuiescentPeriod = 20 * time.Millisecond
+			c.UserCoalescePeriod = 40 * time.Millisecond
+			c.UserQuiescentPeriod = 20 * time.Millisecond
+			c.SnapshotPath = fmt.Sprintf("%s/snap-%d-%d", scratchDir, rng.Int63(), time.Now().UnixNano())
+		}
 	})
 	if err != nil {
 		h.Die("create: %v", err)
@@ -80,6 +93,9 @@ func newRun(nn int, rng *rand.Rand) *run {
 	r.trs = []*quiet.Transport{nd.Tr}
 	for i := 1; i < nn; i++ {
 		r.trs = append(r.trs, r.net.NewTransport(r.names[i]))
+	}
+	if pipeline {
+		return r
 	}
 	// serf.Create announces the local node (EventMemberJoin for itself); not part of any step
 	if ev := r.events(); len(ev) != 1 || ev[0][0] != 1 || ev[0][1] != 0 {
@@ -123,6 +139,67 @@ func (r *run) events() [][]int {
 			}
 		case <-deadline:
 			h.Die("event pipeline did not deliver the marker within 10s")
+		}
+	}
+}
+
+// emittedSince parses the member events serf logged (synchronously, inside the handlers) since the last call.
+func (r *run) emittedSince() [][]int {
+	all := r.n.LogBuf.String()
+	chunk := all[r.logPos:]
+	r.logPos = len(all)
+	out := [][]int{}
+	for _, line := range strings.Split(chunk, "\n") {
+		i := strings.Index(line, "serf: EventMember")
+		if i < 0 {
+			continue
+		}
+		rest := line[i+len("serf: EventMember"):]
+		k, withAddr := 0, true
+		switch {
+		case strings.HasPrefix(rest, "Join: "):
+			k, rest = 1, rest[len("Join: "):]
+		case strings.HasPrefix(rest, "Leave (forced): "):
+			k, rest = 2, rest[len("Leave (forced): "):]
+		case strings.HasPrefix(rest, "Leave: "):
+			k, rest = 2, rest[len("Leave: "):]
+		case strings.HasPrefix(rest, "Failed: "):
+			k, rest = 3, rest[len("Failed: "):]
+		case strings.HasPrefix(rest, "Update: "):
+			k, rest, withAddr = 4, rest[len("Update: "):], false
+		case strings.HasPrefix(rest, "Reap (forced): "):
+			k, rest = 5, rest[len("Reap (forced): "):]
+		case strings.HasPrefix(rest, "Reap: "):
+			k, rest, withAddr = 5, rest[len("Reap: "):], false
+		default:
+			continue
+		}
+		name := rest
+		if withAddr {
+			if j := strings.LastIndex(rest, " "); j >= 0 {
+				name = rest[:j]
+			}
+		}
+		out = append(out, []int{r.id(name), k})
+	}
+	return out
+}
+
+// receivedNow drains what the application channel holds right now.
+func (r *run) receivedNow() [][]int {
+	out := [][]int{}
+	for {
+		select {
+		case e := <-r.n.Events:
+			if v, ok := e.(serf.MemberEvent); ok {
+				k := map[serf.EventType]int{serf.EventMemberJoin: 1, serf.EventMemberLeave: 2, serf.EventMemberFailed: 3,
+					serf.EventMemberUpdate: 4, serf.EventMemberReap: 5}[v.Type]
+				for _, m := range v.Members {
+					out = append(out, []int{r.id(m.Name), k})
+				}
+			}
+		default:
+			return out
 		}
 	}
 }
@@ -335,13 +412,36 @@ func (r *run) step(st h.Step) map[string]interface{} {
 	default:
 		h.Die("unknown action %q", st.A())
 	}
+	if pipeline {
+		if p := st.Int("p"); p > 0 {
+			time.Sleep(time.Duration(p) * time.Millisecond)
+		}
+		return map[string]interface{}{"em": r.emittedSince(), "rc": r.receivedNow(), "drained": false}
+	}
 	return r.observe(q)
+}
+
+// finalPipeline waits until the application channel has been silent for 10 coalesce periods.
+func (r *run) finalPipeline() map[string]interface{} {
+	rc := [][]int{}
+	silent := time.Now()
+	for time.Since(silent) < 400*time.Millisecond {
+		got := r.receivedNow()
+		if len(got) > 0 {
+			rc = append(rc, got...)
+			silent = time.Now()
+		}
+		time.Sleep(5 * time.Millisecond)
+	}
+	return map[string]interface{}{"em": r.emittedSince(), "rc": rc, "drained": true}
 }
 
 func main() {
 	in := flag.String("in", "", "schedules ndjson")
 	out := flag.String("out", "", "trace ndjson")
 	nn := flag.Int("nn", 3, "number of names (self included)")
+	flag.BoolVar(&pipeline, "pipeline", false, "C16: observe the event pipeline (coalescing + snapshot on)")
+	flag.StringVar(&scratchDir, "dir", os.TempDir(), "scratch directory for snapshots")
 	flag.Parse()
 	scheds, err := h.ReadSchedules(*in)
 	if err != nil {
@@ -357,6 +457,9 @@ func main() {
 		tr.Reset(s.ID, nil)
 		for _, st := range s.Steps {
 			tr.Step(st, r.step(st))
+		}
+		if pipeline {
+			tr.Step(h.Step{"a": "final"}, r.finalPipeline())
 		}
 		_ = r.n.Serf.Shutdown()
 	}
